@@ -397,6 +397,12 @@ JOBS = {"crash": crash_job, "explore": explore_job, "sample": sample_job}
 def shard(job: Dict[str, Any], argv: Sequence[str]) -> Dict[str, Any]:
     try:
         t0 = time.time()
+        # Starting the worker processes can take long on a loaded machine; every job
+        # gets a minimum slice from the moment its workers are ready, so that a slow
+        # start shows as a longer run, not as an inconclusive one.
+        first_model = pathlib.Path(job["model"] if "model" in job else job["specs"][0][0])
+        _pool(first_model).ensure(3 if job["type"] != "crash" else 1)
+        job["deadline"] = max(job["deadline"], time.time() + job.get("min_slice", 0.0))
         result = JOBS[job["type"]](job, argv)
         result["wall"] = round(time.time() - t0, 2)
         result["started_late"] = t0 > job["deadline"]
@@ -611,6 +617,9 @@ def main(argv) -> int:
     def add(job: Dict[str, Any], share: float) -> None:
         job["refs"] = refs
         job["deadline"] = chk.t0 + budget * share
+        job["min_slice"] = (
+            {"explore": 25.0, "sample": 12.0, "crash": 20.0}[job["type"]] if quick else 45.0
+        )
         jobs.append(job)
 
     # (a) crash points (queued after the cheap bounded enumerations, see below)
@@ -630,11 +639,11 @@ def main(argv) -> int:
     a, b = str(model_paths[0]), str(model_paths[1])
     if quick:
         add({"type": "explore", "kind": "bounded", "config": "2-writers-same-model/chunks=3/preemptions<=2",
-             "specs": [(a, 3), (a, 3)], "max_preemptions": 2}, 0.8)
+             "specs": [(a, 3), (a, 3)], "max_preemptions": 2}, 0.7)
         add({"type": "explore", "kind": "bounded", "config": "2-writers-two-models/chunks=2/preemptions<=2",
-             "specs": [(a, 2), (b, 2)], "max_preemptions": 2}, 0.8)
+             "specs": [(a, 2), (b, 2)], "max_preemptions": 2}, 0.7)
         add({"type": "explore", "kind": "bounded", "config": "3-workers-same-model/chunks=2/preemptions<=1",
-             "specs": [(a, 2), (a, 2), (a, 2)], "max_preemptions": 1}, 0.8)
+             "specs": [(a, 2), (a, 2), (a, 2)], "max_preemptions": 1}, 0.7)
         n_sample_jobs, n_per = 6, 60
     else:
         depth = 5
@@ -656,11 +665,10 @@ def main(argv) -> int:
         m2 = m1 if rng.random() < 0.7 else str(rng.choice(model_paths))
         add({"type": "sample", "config": f"3-workers/{'same' if m1 == m2 else 'two'}-models/sampled",
              "specs": [(m1, rng.choice([2, 3, 4])), (m1, 2), (m2, rng.choice([2, 3]))],
-             "index": index, "n": n_per, "p_kill": 0.1, "p_inject": 0.15}, 0.8)
+             "index": index, "n": n_per, "p_kill": 0.1, "p_inject": 0.15}, 0.7 if quick else 0.8)
     for job in crash_jobs:
-        add(job, 0.85)
+        add(job, 0.75 if quick else 0.85)
 
-    # (c) stress with real CLI processes runs in this process while the shards work
     stress_models = [small[i] for i in order[:2]]
     stress_refs: Dict[Tuple[str, str], Dict[str, Any]] = {}
 
@@ -670,41 +678,6 @@ def main(argv) -> int:
     workers = 6 if quick else 8
     with concurrent.futures.ProcessPoolExecutor(max_workers=workers) as pool:
         futures = {pool.submit(shard, job, list(argv)): job for job in jobs}
-
-        # stress meanwhile (threads only wait for subprocesses)
-        stress_targets = ["python", "xsd"] if quick else ["python", "jsonschema", "xsd", "typescript"]
-
-        def reference(name: str, text: str, target: str) -> None:
-            ref_world = env.new_dir("sref")
-            (ref_world / "w").mkdir()
-            res = driver.run_cli(text, target, cache_model=False, workdir=ref_world / "w",
-                                 tmpdir=ref_world / "tmp", timeout=300)
-            stress_refs[(name, target)] = {
-                "rc": res.rc,
-                "stdout": res.stdout.replace(str(res.output_dir), "<OUT>"),
-                "stderr": res.stderr.replace(str(res.workdir), "<WORK>"),
-                "tree": driver.tree_digest(res.output_dir),
-            }
-            shutil.rmtree(ref_world, ignore_errors=True)
-
-        ref_threads = [
-            threading.Thread(target=reference, args=(name, text, target))
-            for name, text in stress_models for target in stress_targets
-        ]
-        for t in ref_threads:
-            t.start()
-        for t in ref_threads:
-            t.join()
-        for key, ref in stress_refs.items():
-            if ref["rc"] != 0:
-                chk.harness_error(f"uncached reference CLI run failed for {key}")
-        rounds = chk.pick(2, 12)
-        stress_rng = chk.rng("stress")
-        for index in range(rounds):
-            if time.time() > chk.t0 + budget * 0.8 and index >= 1:
-                break
-            stress_round(chk, index, stress_models, chk.pick(8, 12), stress_rng, stress_refs,
-                         stress_targets)
 
         for future in concurrent.futures.as_completed(futures):
             job = futures[future]
@@ -735,6 +708,43 @@ def main(argv) -> int:
                 agg["shards"] += 1
                 agg["shards_complete"] += 1 if ex["complete"] else 0
                 agg["divergences"] += ex["divergences"]
+
+    # (c) stress: N real CLI processes race on one cache directory (after the shards,
+    # so that at most ~8-12 processes are busy at any time)
+    stress_targets = ["python", "xsd"] if quick else ["python", "jsonschema", "xsd", "typescript"]
+
+    def reference(name: str, text: str, target: str) -> None:
+        ref_world = env.new_dir("sref")
+        (ref_world / "w").mkdir()
+        res = driver.run_cli(text, target, cache_model=False, workdir=ref_world / "w",
+                             tmpdir=ref_world / "tmp", timeout=300)
+        stress_refs[(name, target)] = {
+            "rc": res.rc,
+            "stdout": res.stdout.replace(str(res.output_dir), "<OUT>"),
+            "stderr": res.stderr.replace(str(res.workdir), "<WORK>"),
+            "tree": driver.tree_digest(res.output_dir),
+        }
+        shutil.rmtree(ref_world, ignore_errors=True)
+
+    ref_threads = [
+        threading.Thread(target=reference, args=(name, text, target))
+        for name, text in stress_models for target in stress_targets
+    ]
+    for t in ref_threads:
+        t.start()
+    for t in ref_threads:
+        t.join()
+    for key, ref in stress_refs.items():
+        if ref["rc"] != 0:
+            chk.harness_error(f"uncached reference CLI run failed for {key}")
+    rounds = chk.pick(2, 12)
+    stress_rng = chk.rng("stress")
+    for index in range(rounds):
+        if time.time() > chk.t0 + budget * 0.95 and index >= 1:
+            break
+        stress_round(chk, index, stress_models, chk.pick(8, 12), stress_rng, stress_refs,
+                     stress_targets)
+
 
     for agg in explorations.values():
         agg["complete"] = agg["shards"] == agg["shards_complete"]
